@@ -367,12 +367,12 @@ class Inliner:
         arg_order = [p for p in order if p in actual]
         for i, p in enumerate(arg_order):
             v = actual[p]
-            simple = isinstance(v, ast.Constant) or (isinstance(v, ast.Name) and p not in stored)
+            simple = p not in stored and isinstance(v, ast.Constant | ast.Name)  # a parameter the helper assigns is a variable
             if not simple and need_temp_from is None:
                 need_temp_from = i
         for i, p in enumerate(arg_order):
             v = actual[p]
-            simple = isinstance(v, ast.Constant) or (isinstance(v, ast.Name) and p not in stored)
+            simple = p not in stored and isinstance(v, ast.Constant | ast.Name)  # a parameter the helper assigns is a variable
             if simple and (need_temp_from is None or i < need_temp_from or isinstance(v, ast.Constant)):
                 subst[p] = v
             else:
